@@ -305,6 +305,52 @@ Proof.
   vm_compute. discriminate.
 Qed.
 
+(* whatever the client state: what is published (plus what is still queued) is
+   the demanded sequence with some messages left out - never a duplicate, never
+   out of order, never a message nobody emitted *)
+Lemma sub_refl : forall (A : Type) (l : list A), sub l l.
+Proof. induction l as [|x l IH]; [apply sub_nil | now apply sub_keep]. Qed.
+
+Lemma sub_app_l : forall (A : Type) (a l1 l2 : list A), sub l1 l2 -> sub (a ++ l1) (a ++ l2).
+Proof. induction a as [|x a IH]; intros l1 l2 H; [exact H|]. cbn [app]. apply sub_keep. now apply IH. Qed.
+
+Lemma sub_trans : forall (A : Type) (l2 l3 : list A), sub l2 l3 -> forall l1, sub l1 l2 -> sub l1 l3.
+Proof.
+  intros A l2 l3 H. induction H as [l|x l2 l3 H IH|x l2 l3 H IH]; intros l1 H1.
+  - inversion H1; subst. apply sub_nil.
+  - inversion H1; subst.
+    + apply sub_nil.
+    + apply sub_keep. now apply IH.
+    + apply sub_skip. now apply IH.
+  - apply sub_skip. now apply IH.
+Qed.
+
+Lemma mqtt_never_invents : forall c h s,
+  let s' := fold_left (mqtt_step c) h s in
+  sub (ms_published s' ++ ms_queue s') (ms_published s ++ ms_queue s ++ mqtt_spec c (ms_reg s) h).
+Proof.
+  intros c h. induction h as [|e h IH]; intros s; cbn [fold_left mqtt_spec].
+  - cbn. rewrite app_nil_r. apply sub_refl.
+  - cbn zeta in IH. destruct e as [u| |id info|up].
+    + specialize (IH (mqtt_step c s (MUpdate u))). cbn [mqtt_step ms_published ms_queue ms_reg] in IH.
+      now rewrite <- !app_assoc in IH.
+    + specialize (IH (mqtt_step c s MPublish)). cbn [mqtt_step] in *.
+      destruct (ms_queue s) as [|p q] eqn:Eq.
+      * now rewrite Eq in IH.
+      * cbn [ms_published ms_queue ms_reg] in IH. destruct (ms_client s).
+        -- now rewrite <- !app_assoc in IH.
+        -- eapply sub_trans; [|exact IH]. apply sub_app_l. cbn [app]. apply sub_skip. apply sub_refl.
+    + exact (IH (mqtt_step c s (MRegister id info))).
+    + exact (IH (mqtt_step c s (MClient up))).
+Qed.
+
+Lemma mqtt_published_sub_spec : forall c h,
+  sub (ms_published (mqtt_drain (mqtt_run c h))) (mqtt_spec c [] h).
+Proof.
+  intros c h. unfold mqtt_drain, mqtt_run, mqtt_run_from. cbn [ms_published].
+  exact (mqtt_never_invents c h mqtt_init).
+Qed.
+
 (* topic template *)
 Lemma replace_go_skip : forall pat rep l1 l2,
   replace_go pat rep (length l1) (l1 ++ l2) = replace_go pat rep O l2.
